@@ -581,7 +581,7 @@ func Run(next func(v *View) *Action) (Script, []Obs, []int) {
 				e := Ev{Kind: 2, C: c, K: 1}
 				if err == nil {
 					m := new(dns.Msg)
-					tag := -1
+					tag := 888888 // a reply whose question is not one the fake server writes
 					if m.Unpack(*r) == nil && len(m.Question) == 1 {
 						fmt.Sscanf(m.Question[0].Name, "t%d.", &tag)
 					}
